@@ -823,6 +823,45 @@ pub fn fixed<S: USet>(e: &mut Eng<S>, profile: &str) {
     if matches!(profile, "collect" | "mem" | "alloc" | "det" | "serde" | "compact") && std::env::var("TS_SKIP_SIZES").is_err() {
         sizes(e, false);
     }
+    if matches!(profile, "collect" | "alloc") {
+        // a whole batch arriving at a dense set: the batch's maximum lies beyond the current bitmap (by a little, by a
+        // lot, exactly at the next word), the batch is ascending / descending / holds members already present; the
+        // receiver was collected or built one at a time; then the same through single inserts
+        for (name, n, lo, hi) in [("next-word", 100u64, 100u64, 200u64), ("boundary", 96, 96, 129), ("overlap", 200, 150, 420),
+                                  ("far", 300, 2000, 2100), ("one-item", 64, 127, 128), ("wide", 500, 500, 3000)] {
+            for variant in 0..3 {
+                e.begin(&format!("dense-extend-{}-{}", name, variant));
+                let base: Vec<u64> = (0..n).collect();
+                if variant == 1 {
+                    e.op_new(0);
+                    for &x in &base {
+                        e.op_ins(0, x);
+                    }
+                } else {
+                    e.op_collect(0, &base);
+                }
+                let mut batch: Vec<u64> = (lo..hi).collect();
+                if variant == 2 {
+                    batch.reverse();
+                    batch.push(n / 2);
+                    batch.push(lo);
+                }
+                e.op_clone(1, 0);
+                e.op_extend(0, &batch);
+                e.op_obs(0);
+                for &x in &batch {
+                    e.op_ins(1, x);
+                }
+                e.op_eq(0, 1);
+                e.op_iter(0);
+                e.op_extend(0, &[hi + 40, hi + 41]);
+                e.op_rem(0, hi - 1);
+                e.op_obs(0);
+                e.op_drop(0);
+                e.op_drop(1);
+            }
+        }
+    }
     if profile == "eqops" {
         // the same members reached through different layouts and insertion orders: == and Hash must agree
         for (name, start, n, stride) in [("run300", 1024u64, 300u64, 1u64), ("run1000", 100_000, 1000, 1), ("run90", 5000, 90, 1), ("stride", 2000, 200, 3), ("lowrun", 0, 400, 1)] {
